@@ -2,8 +2,11 @@ package transfer
 
 import (
 	"encoding/binary"
+	"encoding/json"
 	"hash/crc32"
 	"os"
+
+	"github.com/sheerbytes/sheerbytes/pkg/manifest"
 )
 
 // ---------------------------------------------------------------------------------------------
@@ -69,7 +72,7 @@ func H_C15_relpath() {
 }
 
 func H_C15_recvmanifest() {
-	n := vC15Lens(16)
+	n := vC15Lens(28)
 	in := vBytes("in", n)
 	s := &vMemStream{buf: in}
 	mark := vAllocMark()
@@ -77,6 +80,34 @@ func H_C15_recvmanifest() {
 	vAssert(vAllocSince(mark) <= vAllocSlack+2*uint64(n), "allocation proportional to the bytes received")
 	if err != nil {
 		vCover("C15 recvmanifest: rejected")
+	}
+}
+
+// H_C15_recvmanifest_body: a well-formed header announcing 0 or 1 items (built with the real JSON
+// encoder, so that a model replays natively), followed by arbitrary record bytes.
+func H_C15_recvmanifest_body() {
+	var m manifest.Manifest
+	m.Root = "r"
+	if vBool("oneItem") {
+		m.Items = []manifest.FileItem{{RelPath: "a", IsDir: vBool("isDir"), Size: int64(vU8("size"))}}
+	}
+	jb, err := json.Marshal(m)
+	vAssume(err == nil)
+	n := vC15Lens(20)
+	rest := vBytes("rest", n)
+	var in []byte
+	in = append(in, manifestMagicBytes...)
+	in = binary.BigEndian.AppendUint32(in, uint32(len(jb)))
+	in = append(in, jb...)
+	in = append(in, rest...)
+	s := &vMemStream{buf: in}
+	mark := vAllocMark()
+	_, rerr := RecvManifest(vContext("ctx", false), s, vTempDir(), nil)
+	vAssert(vAllocSince(mark) <= vAllocSlack+2*uint64(len(in)), "allocation proportional to the bytes received")
+	if rerr != nil {
+		vCover("C15 recvmanifest body: rejected")
+	} else {
+		vCover("C15 recvmanifest body: accepted")
 	}
 }
 
